@@ -12,6 +12,12 @@ built by the call sequence every parser uses (harness/c03.cpp `lay`, Model/Buf.l
     { ChangesetDiscussionBuilder d{b};  d.add_comment(date, uid, user); [d.add_comment_text(text)] … }
     buffer.commit();
 
+Since repair 5690f83 `~ChangesetDiscussionBuilder` finishes a comment that is still pending (the LAST
+`add_comment` of the block without its `add_comment_text`) with an empty text and its padding:
+`finishLast`.  A text-less comment followed by another `add_comment` is still API misuse (assertion;
+NDEBUG: the comment stays unpadded) — no reader of the library issues that sequence any more.
+`Pre.build` is the layout as it was before the repair (regression documentation).
+
 Transcribed from include/osmium/builder/osm_object_builder.hpp and builder.hpp (add_size to all
 parents, add_padding(self)), cross-checked three ways: `Buf.run (script o)` (Model/Buf.lean, the C04
 model) gives the same bytes (theorem `script_build_examples`, runtime check `lay` of model_c03), and
@@ -117,7 +123,19 @@ def commentBytes (fill : UInt8) (c : CommentS) : Bytes :=
    | some t => t ++ [0] ++ zeros (padTo (16 + (c.user.length + 1) + (t.length + 1)))
    | none => [])
 
-def commentsBody (fill : UInt8) (cs : List CommentS) : Bytes := (cs.map (commentBytes fill)).flatten
+/-- the comments one after the other, each exactly as its calls left it -/
+def commentsBodyRaw (fill : UInt8) (cs : List CommentS) : Bytes := (cs.map (commentBytes fill)).flatten
+
+/-- `~ChangesetDiscussionBuilder` (repair 5690f83): `if (m_comment_offset != no_comment)
+    add_text(current, "", 0)` — a pending LAST comment gets the empty text (text_size 1, NUL,
+    padding) -/
+def finishLast : List CommentS → List CommentS
+  | [] => []
+  | [c] => [match c.text with | some _ => c | none => { c with text := some [] }]
+  | c :: d :: r => c :: finishLast (d :: r)
+
+/-- the body of a discussion after the builder's destructor -/
+def commentsBody (fill : UInt8) (cs : List CommentS) : Bytes := commentsBodyRaw fill (finishLast cs)
 
 def SubS.ty : SubS → Nat
   | .tags _ => tyTagList
@@ -178,19 +196,20 @@ def SubS.lengthsOk : SubS → Bool
   | .tags kvs => kvs.all fun kv => kv.1.length ≤ maxStr && kv.2.length ≤ maxStr
   | .nodes _ _ => true
   | .members ms => ms.all fun m => m.role.length ≤ maxStr
-  | .discussion cs => cs.all fun c => c.user.length ≤ maxStr &&
+  | .discussion cs => (finishLast cs).all fun c => c.user.length ≤ maxStr &&
       (match c.text with | some t => t.length + 1 < 2 ^ 32 | none => true)
 
 /-- the guards the proof forces on top of the builders' checks:
     * tag keys and values contain no NUL (Tag::next() is two `after_null`s),
-    * every `add_comment` is followed by `add_comment_text`,
+    * every `add_comment` but the last of a block is followed by `add_comment_text` (the last one
+      is finished by the destructor: `finishLast`),
     and for an exact read-back also: roles and comment user names / texts contain no NUL
     (not needed for in-bounds traversal: those strings are delimited by their size fields). -/
 def SubS.extraOk : SubS → Bool
   | .tags kvs => kvs.all fun kv => noNul kv.1 && noNul kv.2
   | .nodes t _ => t == tyWayNodeList || t == tyOuterRing || t == tyInnerRing
   | .members ms => ms.all fun m => noNul m.role
-  | .discussion cs => cs.all fun c => noNul c.user &&
+  | .discussion cs => (finishLast cs).all fun c => noNul c.user &&
       (match c.text with | some t => noNul t | none => false)
 
 structure Guards (fill : UInt8) (o : ObjS) : Prop where
@@ -198,10 +217,12 @@ structure Guards (fill : UInt8) (o : ObjS) : Prop where
   fixedLen : o.fixed.length = o.kind.sizeT - 8
   /-- builders' own checks -/
   lengths : ∀ s ∈ o.subs, s.lengthsOk = true
-  /-- EXTRA (F13c): `set_user` only asserts this; the user_size field is 16 bits -/
+  /-- the user_size field is 16 bits (`set_user` throws std::length_error beyond
+      max_osm_string_length = 1024 since repair bc6b907; before, it only asserted: F13c) -/
   userLen : o.user.length + 1 < 2 ^ 16
   userNoNul : noNul o.user = true
-  /-- EXTRA (F13a, F13b) -/
+  /-- EXTRA: not checked by the builders, established by every reader (F13a: PBF string table,
+      repair da64936; F13b: XML discussion, repair 5690f83) -/
   extra : ∀ s ∈ o.subs, s.extraOk = true
   /-- EXTRA: the item size field is 32 bits -/
   total : objSize fill o < 2 ^ 32
@@ -242,6 +263,24 @@ def subTree : SubS → Tree
   | .nodes t ns => .mk t false (nodeInts ns) [] []
   | .members ms => .mk tyMemberList false [] [] (ms.map memberTree)
   | .discussion cs => .mk tyDiscussion false [] [] (cs.map commentTree)
+
+/-! ### the layout before repair 5690f83 (regression documentation only) -/
+
+namespace Pre
+
+def body (fill : UInt8) : SubS → Bytes
+  | .discussion cs => commentsBodyRaw fill cs       -- a pending last comment stayed without text and padding
+  | s => s.body fill
+
+def subBytes (fill : UInt8) (s : SubS) : Bytes :=
+  header (8 + (body fill s).length) s.ty ++ body fill s ++ zeros (padTo (8 + (body fill s).length))
+
+def subsBytes (fill : UInt8) (ss : List SubS) : Bytes := (ss.map (subBytes fill)).flatten
+
+def build (fill : UInt8) (o : ObjS) : Bytes :=
+  header (o.kind.headLen o.user.length + (subsBytes fill o.subs).length) o.kind.ty ++ headBody o ++ subsBytes fill o.subs
+
+end Pre
 
 /-! ### the same call sequence as a script of the C04 buffer model -/
 
